@@ -22,7 +22,7 @@ from . import common
 ID = 'C13'
 LEVEL = 'fault_enumeration'
 RUNS = {'quick': 96, 'thorough': 384}
-ENV_OPT_OUT = ('failed_eval', 'discrete_units')      # the statement does not say whether a second evaluate() restarts or continues the count
+ENV_OPT_OUT = ('failed_eval', 'discrete_units', 'explained_before', 'reconf')      # the statement does not say whether a second evaluate() restarts or continues the count
 SIM_TIME_UNIT = 'time-stamps'
 SELFTEST_RUNS = 2      # one run enumerates ~900 fault sequences (about 2 s)
 SELFTEST_FRESH = 1
